@@ -205,7 +205,7 @@ def harness(cx, cfg):
             l2 = list(S.log)
             cx.check("%s is euler with selector %d" % (nm, names[nm]), len(l1) == len(l2) and len(l1) == 2)
             for p, q in zip(l1, l2):
-                for u, v in zip(p[1:], q[1:]):
+                for u, v in zip(p[1:3], q[1:3]):
                     cx.check_eq("%s hands the same arguments to the inverse functions as euler(select=%d)" % (nm, names[nm]), u, v)
             cx.drop_obligations("euler's own domain conditions are decided in the euler configurations")
             return
